@@ -229,7 +229,7 @@ class Origins:
     def ev(self, e, r: FnOrigins, local: Optional[Dict[str, Set]] = None) -> Set:
         """origins of an expression; descriptors *constructed* here (not merely read from a variable) are noted in self._gen"""
         out = self._ev(e, r, local)
-        if not isinstance(e, (ast.Name, ast.IfExp, ast.Tuple, ast.List, ast.Set, ast.GeneratorExp, ast.ListComp, ast.SetComp)):
+        if not isinstance(e, (ast.Name, ast.IfExp, ast.BinOp, ast.Tuple, ast.List, ast.Set, ast.GeneratorExp, ast.ListComp, ast.SetComp)):
             transparent = isinstance(e, ast.Call) and (
                 (isinstance(e.func, ast.Name) and (e.func.id in HULL or e.func.id in ("list", "tuple", "set", "sorted", "frozenset")))
                 or (isinstance(e.func, ast.Attribute) and e.func.attr in ("union", "copy"))
@@ -265,6 +265,8 @@ class Origins:
             return {("elem", o) for o in self.ev(base, r, local) if o != UNKNOWN}
         if isinstance(e, ast.IfExp):
             return self.ev(e.body, r, local) | self.ev(e.orelse, r, local)
+        if isinstance(e, ast.BinOp) and isinstance(e.op, (ast.Add, ast.BitOr)):
+            return self.ev(e.left, r, local) | self.ev(e.right, r, local)  # list concatenation / set union
         if isinstance(e, (ast.Tuple, ast.List, ast.Set)):
             out = set()
             for x in e.elts:
